@@ -60,20 +60,33 @@ def _run_base(ctx):
     # raising stub is fine; builders: validated returns the internal store (sorted for mappings)
     sb = repo.func('nbdime.diff_format:SequenceDiffBuilder.append')
     ins = [c for c in calls_in(sb) if isinstance(c.func, ast.Attribute) and c.func.attr == 'insert']
-    whiles = [n for n in walk_no_nested(sb) if isinstance(n, ast.While)]
-    ok = len(ins) == 1 and len(whiles) == 2 and not any(isinstance(c.func, ast.Attribute) and c.func.attr == 'append' and dotted(c.func.value) == 'self._diff' for c in calls_in(sb))
-    ctx.inst('R11.1', 'nbdime.diff_format:SequenceDiffBuilder.append', 'sorted insertion (%d while-scans, insert at pos)' % len(whiles), ok,
+    # shape, not loop form: the single mutation of the store is insert(pos, entry); the scan compares stored keys with
+    # the new key, inclusive (>=) under the ADDRANGE arm and strict (>) otherwise, spelled as a comparison or as operator.ge/gt
+    def _cmp_kinds(stmts):
+        kinds = set()
+        for st in stmts:
+            for n in ast.walk(st):
+                if isinstance(n, ast.Compare) and len(n.ops) == 1 and all(isinstance(x, ast.Attribute) and x.attr == 'key' for x in (n.left, n.comparators[0])):
+                    kinds.add({ast.GtE: 'ge', ast.Gt: 'gt', ast.Lt: 'lt', ast.LtE: 'le'}.get(type(n.ops[0]), type(n.ops[0]).__name__))
+                elif isinstance(n, ast.Attribute) and dotted(n) in ('operator.ge', 'operator.gt', 'operator.le', 'operator.lt'):
+                    kinds.add(n.attr)
+        return kinds
+    arm = [n for n in walk_no_nested(sb) if isinstance(n, ast.If) and isinstance(n.test, ast.Compare) and 'ADDRANGE' in ast.unparse(n.test)
+           and isinstance(n.test.ops[0], ast.Eq)]
+    if len(arm) != 1 or not arm[0].orelse:
+        raise AnalysisError('R11.1: SequenceDiffBuilder.append no longer has an `op == ADDRANGE` / else pair to read the scan from')
+    k_add, k_other = _cmp_kinds(arm[0].body), _cmp_kinds(arm[0].orelse)
+    if not k_add or not k_other:
+        raise AnalysisError('R11.1: no key comparison recognised in the arms of SequenceDiffBuilder.append (%s / %s)' % (sorted(k_add), sorted(k_other)))
+    mut = [c for c in calls_in(sb) if isinstance(c.func, ast.Attribute) and dotted(c.func.value) == 'self._diff' and c.func.attr in
+           ('append', 'extend', 'insert', 'sort', 'pop', 'remove', 'reverse', 'clear')]
+    ok = len(ins) == 1 and len(mut) == 1 and not ({'lt', 'le'} & (k_add | k_other))
+    ctx.inst('R11.1', 'nbdime.diff_format:SequenceDiffBuilder.append', 'sorted insertion (scan %s under ADDRANGE, %s otherwise; %d store mutation(s))' % (sorted(k_add), sorted(k_other), len(mut)), ok,
              'entries are inserted at their sorted position, addrange first at equal key' if ok else 'builder no longer inserts at a sorted position', sb)
-    g = CFG(sb)
-    if ok:
-        # the addrange scan uses >= (goes before equal keys), the other uses >
-        ops = {}
-        for w in whiles:
-            cmp_ = [n for n in ast.walk(w.test) if isinstance(n, ast.Compare) and any(isinstance(x, ast.Attribute) and x.attr == 'key' for x in ast.walk(n))]
-            guards = cond_guards(g, w)
-            is_add = any(truth_under(t, pol, lambda e: isinstance(e, ast.Compare) and dotted(e.comparators[0]) == 'DiffOp.ADDRANGE') is True for t, pol in guards)
-            ops['addrange' if is_add else 'other'] = type(cmp_[0].ops[0]).__name__ if cmp_ else '?'
-        ok2 = ops == {'addrange': 'GtE', 'other': 'Gt'}
+    ok1 = len(ins) == 1 and len(mut) == 1
+    ops = {'addrange': sorted(k_add), 'other': sorted(k_other)}
+    ok2 = k_add == {'ge'} and k_other == {'gt'}
+    if ok1:
         ctx.inst('R11.1', 'nbdime.diff_format:SequenceDiffBuilder.append', 'tie-break %s' % ops, ok2,
                  'addrange goes before removerange/patch with the same key; equal-op entries keep insertion order' if ok2 else
                  'tie-break changed: addrange is no longer ordered before removerange/patch at equal key (patchers rely on it)', sb)
